@@ -17,7 +17,7 @@ from ..common import Violation
 
 PROP = "C05"
 ACTS = {"Transpose", "Adjoint", "Product", "Sum", "Kronecker", "BlockDiag", "Sliced", "Annot", "Gram", "NoDispatch",
-        "KronSum", "SelfProd", "anns"}
+        "KronSum", "SelfProd", "GramWin", "anns"}
 API = {"op_matmul", "op_add", "op_neg", "op_scalar", "op_kron", "op_block_diag", "op_T", "op_H", "Annot", "anns"}
 
 
